@@ -106,6 +106,8 @@ def gen_history(r, short=False, ticks=False):
   nm = r.randint(1, 5)
   nt = r.randint(1, 4)
   metrics = ['m%d' % i for i in range(nm)]
+  if r.random() < 0.1:
+    metrics[r.randrange(nm)] = ''      # the pickle listener accepts a series whose name is the empty string
   n = r.randint(4, 9) if short else r.randint(8, 24)
   ops = []
   for _ in range(n):
